@@ -245,7 +245,7 @@ static int32 psParseIntegrityMode(const unsigned char **buf, int32 totLen)
     if (oi == OID_PKCS7_DATA)
     {
         /* Data ::= OCTET STRING */
-        if (*p++ != (ASN_CONTEXT_SPECIFIC | ASN_CONSTRUCTED))
+        if (p >= end || *p++ != (ASN_CONTEXT_SPECIFIC | ASN_CONSTRUCTED))
         {
             return PS_PARSE_FAIL;
         }
@@ -253,7 +253,7 @@ static int32 psParseIntegrityMode(const unsigned char **buf, int32 totLen)
         {
             return PS_PARSE_FAIL;
         }
-        if ((*p++ != ASN_OCTET_STRING) ||
+        if (p >= end || (*p++ != ASN_OCTET_STRING) ||
             getAsnLength(&p, (int32) (end - p), &totcontentlen) < 0)
         {
             psTraceCrypto("Couldn't parse data from ContentInfo\n");
@@ -822,7 +822,7 @@ static int32 parseSafeContents(psPool_t *pool, unsigned char *password,
             return rc;
         }
         safeLen = (unsigned char *) p + tmpint;
-        if (*p++ != (ASN_CONTEXT_SPECIFIC | ASN_CONSTRUCTED))
+        if (p >= end || *p++ != (ASN_CONTEXT_SPECIFIC | ASN_CONSTRUCTED))
         {
             return PS_PARSE_FAIL;
         }
@@ -863,7 +863,7 @@ static int32 parseSafeContents(psPool_t *pool, unsigned char *password,
                 psTraceIntCrypto("Unsupported CertBag type %d\n", certoi);
                 return PS_UNSUPPORTED_FAIL;
             }
-            if (*p++ != (ASN_CONTEXT_SPECIFIC | ASN_CONSTRUCTED))
+            if (p >= end || *p++ != (ASN_CONTEXT_SPECIFIC | ASN_CONSTRUCTED))
             {
                 return PS_PARSE_FAIL;
             }
@@ -871,7 +871,7 @@ static int32 parseSafeContents(psPool_t *pool, unsigned char *password,
             {
                 return rc;
             }
-            if ((*p++ != ASN_OCTET_STRING) ||
+            if (p >= end || (*p++ != ASN_OCTET_STRING) ||
                 getAsnLength(&p, (int32) (end - p), &tmplen) < 0)
             {
                 psTraceCrypto("Couldn't extract X509 CertBag\n");
@@ -970,7 +970,7 @@ static int32 parseSafeContents(psPool_t *pool, unsigned char *password,
             {
                 return rc;
             }
-            if ((*p++ != ASN_OCTET_STRING) ||
+            if (p >= end || (*p++ != ASN_OCTET_STRING) ||
                 getAsnLength(&p, (int32) (end - p), &tmplen) < 0)
             {
                 psTraceCrypto("Couldn't parse PKCS#8 param salt\n");
@@ -1023,7 +1023,7 @@ static int32 psParseAuthenticatedSafe(psPool_t *pool, psX509Cert_t **cert,
         if (oi == OID_PKCS7_ENCRYPTED_DATA)
         {
             /* password protected mode */
-            if (*p++ != (ASN_CONTEXT_SPECIFIC | ASN_CONSTRUCTED))
+            if (p >= end || *p++ != (ASN_CONTEXT_SPECIFIC | ASN_CONSTRUCTED))
             {
                 psTraceCrypto("Initial pkcs7 encrypted data parse failure\n");
                 return PS_PARSE_FAIL;
@@ -1089,7 +1089,7 @@ static int32 psParseAuthenticatedSafe(psPool_t *pool, psX509Cert_t **cert,
         else if (oi == OID_PKCS7_DATA)
         {
             /* Data ::= OCTET STRING */
-            if (*p++ != (ASN_CONTEXT_SPECIFIC | ASN_CONSTRUCTED))
+            if (p >= end || *p++ != (ASN_CONTEXT_SPECIFIC | ASN_CONSTRUCTED))
             {
                 psTraceCrypto("Initial pkcs7 data parse failure\n");
                 return PS_PARSE_FAIL;
@@ -1098,7 +1098,7 @@ static int32 psParseAuthenticatedSafe(psPool_t *pool, psX509Cert_t **cert,
             {
                 return PS_PARSE_FAIL;
             }
-            if (*p++ != ASN_OCTET_STRING || getAsnLength(&p,
+            if (p >= end || *p++ != ASN_OCTET_STRING || getAsnLength(&p,
                     (int32) (end - p), &tmplen) < 0)
             {
                 return PS_PARSE_FAIL;
